@@ -53,7 +53,7 @@ type AllocPlan struct {
 	MaxSteps int           `json:"max_steps"`
 }
 
-func genAlloc(seed uint64) *AllocPlan {
+func genAlloc(seed uint64, deep bool) *AllocPlan {
 	r := core.NewRand(seed, 1)
 	p := &AllocPlan{}
 	p.InitSize = []int{0, 512, 513, 1000, 1024, 4096}[r.IntN(6)]
@@ -74,6 +74,11 @@ func genAlloc(seed uint64) *AllocPlan {
 		return op
 	}
 	nph := 1 + r.IntN(5)
+	progMax := 8
+	if deep {
+		nph = 4 + r.IntN(12)
+		progMax = 24
+	}
 	for i := 0; i < nph; i++ {
 		switch x := r.IntN(10); {
 		case x < 5:
@@ -81,7 +86,7 @@ func genAlloc(seed uint64) *AllocPlan {
 			ph := APhase{Kind: PhConcurrent}
 			for t := 0; t < nt; t++ {
 				var prog []AOp
-				for j := 0; j < 1+r.IntN(8); j++ {
+				for j, nj := 0, 1+r.IntN(progMax); j < nj; j++ {
 					prog = append(prog, drawOp())
 				}
 				ph.Progs = append(ph.Progs, prog)
@@ -111,6 +116,9 @@ func genAlloc(seed uint64) *AllocPlan {
 	p.Sched.PCTDepth = 1 + r.IntN(3)
 	p.Sched.PCTSteps = 200
 	p.MaxSteps = 20000
+	if deep {
+		p.MaxSteps = 100000
+	}
 	return p
 }
 
